@@ -102,7 +102,7 @@ func c28FloodCase(r *verifkit.R, phase string, ci int, rng *verifkit.Rand) {
 			st.Expect = "reject, forward nothing"
 			steps = append(steps, st)
 			invalidJudged++
-			cls := c28Family(c.Class)
+			cls := c28KeyFamily(c)
 			if out.Accepted {
 				r.Violation("flood:"+c.typ()+":"+cls+":accepted", phase, ci,
 					"Flooder returned true (agent acts) for a command that is not validly signed / not inside the window", steps)
@@ -275,7 +275,7 @@ func c28OriginCase(r *verifkit.R, phase string, ci int, rng *verifkit.Rand) {
 			if dropped {
 				r.Add("origin_replays_after_dedup_dropped", 1)
 			}
-			cls := c28Family(c.Class)
+			cls := c28KeyFamily(c)
 			if out.Accepted {
 				r.Violation("flood:"+c.typ()+":"+cls+":accepted-after-local-origination", phase, ci,
 					"a command that is invalid now was accepted because the Flooder had originated/stored the identical command before", steps)
